@@ -16,6 +16,7 @@ RULE = ("a FakeBLE object on a simulated radio; a case = (MAC form, name None/st
         "len_available() and the ValueError boundary are compared with the decoded packet. "
         "Non-trivial: a packet was decoded or a rejection observed; distinct = (name length/type, "
         "pa flag/level, chunk lengths, form, channel history).")
+RULE += (" Later rounds added: the MAC as assigned (ints with zero upper bytes; either byte order), repeated advertisements with the same chunk objects and the TX power changed in between.")
 REQUIRED = {"decoded_by_phone": 800, "fields_match": 800, "len_available": 800,
             "valueerror_boundary": 300, "channel_histories": 300}
 BUDGET = {"quick": 480, "thorough": 900}
